@@ -63,6 +63,8 @@ def plain_templates():
     # 206
     t.append([206008, 63255, 1001])
     t.append([206001, 63250, 206020, 63251, 2001])
+    t.append([206012, 12101, 12101, 2001])                 # the skipped descriptor is one that Table B defines: still a local field (S12101)
+    t.append([1001, 206007, 1001, 206004, 2001, 2001])
     # 208
     t.append([208003, 1015, 1008, 208000, 1015])
     t.append([208025, 1008, 2001, 12001, 208000])
